@@ -4,7 +4,7 @@
    create_directory / delete_contents / adjust_path / version_file / unversion_file / set_executability,
    find_raw_conflicts, resolve_conflicts, PreviewTree.
 
-   World: the tree {a, d/, d/c} (all versioned) with trans-ids a d c, and one new trans-id n created by
+   World: the tree {a (executable), d/, d/c} (all versioned) with trans-ids a d c, and one new trans-id n created by
    create_path("n", root) before the first operation.  One action per builder call; the calls respect the API's own
    preconditions (create contents once, version only an unversioned trans-id with a fresh file id, unversion only a
    versioned one, set executability once).  A state is the op maps `m`; `hist` is the call sequence that builds it (the calls
@@ -21,9 +21,9 @@ VARIABLES m, hist, out
 vars == <<m, hist, out>>
 
 PTids == {"a", "d", "c", "n"}
-PTree == [a |-> [name |-> "a", parent |-> ROOT, kind |-> "file", ver |-> TRUE],
-          d |-> [name |-> "d", parent |-> ROOT, kind |-> "directory", ver |-> TRUE],
-          c |-> [name |-> "c", parent |-> "d", kind |-> "file", ver |-> TRUE]]
+PTree == [a |-> [name |-> "a", parent |-> ROOT, kind |-> "file", ver |-> TRUE, x |-> TRUE],
+          d |-> [name |-> "d", parent |-> ROOT, kind |-> "directory", ver |-> TRUE, x |-> FALSE],
+          c |-> [name |-> "c", parent |-> "d", kind |-> "file", ver |-> TRUE, x |-> FALSE]]
 PRank == [a |-> 1, c |-> 2, d |-> 3, n |-> 4, x |-> 5]
 
 M0 == [Blank EXCEPT !.name = [@ EXCEPT !["n"] = "n"], !.parent = [@ EXCEPT !["n"] = ROOT]]      \* after create_path("n", root)
